@@ -145,6 +145,13 @@ pub fn raw_of(t: &T) -> Raw {
 fn ser(a: &dyn Aml) -> Vec<u8> {
     let mut v = Vec::new();
     a.to_aml_bytes(&mut v);
+    // the history principle for terms: serialising is an observation, and an object observed twice is the same object
+    // (a cache filled by the first pass is state); a difference is raised as a panic, which every caller reports
+    let mut again = Vec::new();
+    a.to_aml_bytes(&mut again);
+    if again != v {
+        panic!("SECOND USE: the same object serialised a second time gives different bytes ({} then {} bytes)", v.len(), again.len());
+    }
     v
 }
 fn raws(ts: &[T]) -> Vec<Raw> {
@@ -163,6 +170,23 @@ pub fn space(i: u8) -> OpRegionSpace {
 
 /// Execute the program on the real crate: every node is built with the crate's constructor and
 /// serialised by the crate's serialiser (children are handed over pre-serialised).
+thread_local! {
+    /// origin of every `PackageBuilder` built by `real_with`: 0 = `new()`, 1 = `Default`, 2 = what `core::mem::take` leaves behind
+    pub static PB_ORIGIN: std::cell::Cell<u8> = const { std::cell::Cell::new(0) };
+}
+/// `real` with every package builder obtained from the given origin
+pub fn real_from_origin(t: &T, origin: u8) -> Vec<u8> {
+    PB_ORIGIN.with(|o| o.set(origin));
+    let r = std::panic::catch_unwind(std::panic::AssertUnwindSafe(|| real(t)));
+    PB_ORIGIN.with(|o| o.set(0));
+    match r {
+        Ok(b) => b,
+        Err(e) => std::panic::resume_unwind(e),
+    }
+}
+pub fn has_builder(t: &T) -> bool {
+    matches!(t, T::PackageBuilder(_)) || t.children().iter().any(|c| has_builder(c))
+}
 pub fn real(t: &T) -> Vec<u8> {
     real_with(t, &mut |a| ser(a))
 }
@@ -196,7 +220,17 @@ pub fn real_with<R>(t: &T, kk: &mut dyn FnMut(&dyn Aml) -> R) -> R {
             kk(&Package::new(refs(&r)))
         }
         T::PackageBuilder(cs) => {
-            let mut b = PackageBuilder::new();
+            // how the builder was obtained is state (C06 runs every builder program from each origin)
+            let mut b = match PB_ORIGIN.with(|o| o.get()) {
+                0 => PackageBuilder::new(),
+                1 => PackageBuilder::default(),
+                _ => {
+                    let mut used = PackageBuilder::new();
+                    used.add_element(&0x1234u16);
+                    let _ = core::mem::take(&mut used);
+                    used
+                }
+            };
             for c in cs {
                 // the element is handed over as the real object (its own children pre-serialised), so that the builder's
                 // sink interface sees the element's own call pattern (byte / word / dword / qword / vec)
